@@ -266,6 +266,30 @@ def execute(case, chooser):
                         sch.abort_snapshot = snap_finished(sch, runlog)
                         raise Marker("wrap_result fails for %d" % n)
                     return result
+            if case.get("wrap_own_stop"):
+                # the caller's wrap_result hook hands every worker a result that keeps its OWN shouldStop (say, to stop
+                # one worker without stopping the others): telling a worker to stop means telling THAT object
+                inner_wrap = wrap
+
+                class OwnStop(testtools.TestResultDecorator):
+                    def __init__(self, decorated):
+                        super().__init__(decorated)
+                        self._own_stop = False
+                        self.stop_calls = 0
+
+                    shouldStop = property(lambda self: self._own_stop)
+
+                    def stop(self):
+                        if sch.current_name() == "main":
+                            self.stop_calls += 1
+                        self._own_stop = True
+
+                def wrap(result, n):   # noqa: F811
+                    r = inner_wrap(result, n) if inner_wrap else result
+                    w = OwnStop(r)
+                    if not gen[0]:
+                        created[created.index(result)] = w    # the monitor reads what the worker was given
+                    return w
             suite = testtools.ConcurrentTestSuite(unittest.TestSuite(), make_tests_cts, wrap_result=wrap)
         else:
             target = recorders.StreamRecorder(log, "caller")
@@ -540,6 +564,9 @@ def run(ctx):
                 ctx.execute("schedule", {"kind": kind, "workers": workers, "abort": ab, "mode": "random",
                                          "rseed": rng.randrange(10 ** 9), "p": rng.choice([0.1, 0.5, 0.9])},
                             sample=(n % 53 == 0))
+                if kind == "cts" and rep == 0:
+                    ctx.execute("schedule", {"kind": kind, "workers": workers, "abort": ab, "mode": "random",
+                                             "wrap_own_stop": True, "rseed": rng.randrange(10 ** 9), "p": 0.5})
     # the same suite object run again after each kind of abort
     for kind in ("cts", "stream"):
         for ab in ([["make_tests", 1], ["interrupt", 4], ["interrupt", 9]] +
